@@ -72,6 +72,7 @@ def dispatch (op : String) (args : List SExp) : Option OpResult :=
   | "pf.prin" => opPfPrin args
   | "pf.discover" => opPfDiscover args
   | "fs.obs" => opFsObs args
+  | "srv.opt" => opSrvOpt args
   | "pf.consist" => opPfConsist args
   | "obj.cals" => opObjCals args
   | "obj.books" => opObjBooks args
